@@ -104,6 +104,18 @@ Proof.
     change (sumz (x :: firstn (S k) r)) with (x + sumz (firstn (S k) r)). lia.
 Qed.
 
+Lemma sumz_firstn_S l : forall k, sumz (firstn (S k) l) = sumz (firstn k l) + nth k l 0.
+Proof.
+  induction l as [|x r IH]; intros k.
+  - destruct k; reflexivity.
+  - destruct k.
+    + simpl. lia.
+    + change (firstn (S (S k)) (x :: r)) with (x :: firstn (S k) r).
+      change (firstn (S k) (x :: r)) with (x :: firstn k r).
+      change (nth (S k) (x :: r) 0) with (nth k r 0).
+      specialize (IH k). unfold sumz in *. cbn [fold_right]. lia.
+Qed.
+
 Lemma internal_structure_nth counts start k : (k < length counts)%nat ->
   nth k (internal_structure counts start) (0, 0) =
   (start + sumz (firstn k counts), start + sumz (firstn k counts) + nth k counts 0 - 1).
@@ -113,11 +125,8 @@ Proof.
   rewrite (nth_indep _ (0, 0) (f (0, 0))) by
       (rewrite map_length, combine_length, cumsum_z_length; lia).
   rewrite map_nth, combine_nth by (now rewrite cumsum_z_length).
-  rewrite cumsum_z_nth by auto. unfold f; simpl.
-  assert (E : sumz (firstn (S k) counts) = sumz (firstn k counts) + nth k counts 0).
-  { clear. revert k. induction counts as [|x r IH]; intros k; simpl.
-    - destruct k; simpl; lia.
-    - destruct k; simpl; [lia|]. rewrite IH. lia. }
+  rewrite cumsum_z_nth by auto. unfold f; cbn [fst snd].
+  pose proof (sumz_firstn_S counts k) as E.
   rewrite E. f_equal; lia.
 Qed.
 
@@ -197,15 +206,24 @@ Section SBGP.
   Lemma adjdiff_gsum ks : forall vs p a, length vs = length ks ->
     adjdiff p (select (gmask ks) (cumsum_from a vs)) = gsum (sub a p) ks vs.
   Proof.
-    induction ks as [|k kr IH]; intros vs p a Hl; destruct vs as [|v vr]; simpl in *; try discriminate; auto.
+    induction ks as [|k kr IH]; intros vs p a Hl; destruct vs as [|v vr]; try discriminate; [reflexivity|].
     destruct kr as [|k' kr'].
-    - destruct vr; simpl in *; try discriminate. f_equal. ring.
-    - destruct (Z.eqb_spec k' k); simpl.
-      + rewrite (IH vr p (add a v)) by lia.
+    - destruct vr; [|discriminate]. simpl. f_equal. ring.
+    - change (gmask (k :: k' :: kr')) with (negb (k' =? k) :: gmask (k' :: kr')).
+      change (cumsum_from a (v :: vr)) with (add a v :: cumsum_from (add a v) vr).
+      change (gsum (sub a p) (k :: k' :: kr') (v :: vr)) with
+        (if k' =? k then gsum (add (sub a p) v) (k' :: kr') vr else add (sub a p) v :: gsum zero (k' :: kr') vr).
+      assert (Hl' : length vr = length (k' :: kr')) by (simpl in *; lia).
+      destruct (Z.eqb_spec k' k); cbn [negb select Model.adjdiff].
+      + rewrite (IH vr p (add a v) Hl').
         replace (sub (add a v) p) with (add (sub a p) v) by ring. reflexivity.
-      + f_equal; [ring|]. rewrite (IH vr (add a v) (add a v)) by lia.
+      + f_equal; [ring|]. rewrite (IH vr (add a v) (add a v) Hl').
         replace (sub (add a v) (add a v)) with zero by ring. reflexivity.
   Qed.
+
+  Lemma sum_pairs_cons k j v (l : list (Z * A)) :
+    sum_pairs k ((j, v) :: l) = if j =? k then add v (sum_pairs k l) else sum_pairs k l.
+  Proof. reflexivity. Qed.
 
   Lemma sum_pairs_none k (l : list (Z * A)) : (forall kv, In kv l -> fst kv <> k) -> sum_pairs k l = zero.
   Proof.
@@ -261,20 +279,21 @@ Section SBGP.
         destruct (Z.eqb_spec k' k) as [E|NE]; simpl negb; cbv iota.
         * subst k'. rewrite IH1, Hd. split.
           -- f_equal.
-             ++ simpl sum_pairs at 2. rewrite Z.eqb_refl. ring.
-             ++ apply map_ext_in. intros x Hx. specialize (Hgt _ Hx). simpl.
+             ++ rewrite sum_pairs_cons, Z.eqb_refl. ring.
+             ++ apply map_ext_in. intros x Hx. specialize (Hgt _ Hx). rewrite sum_pairs_cons.
                 destruct (Z.eqb_spec k x); [lia|]. reflexivity.
           -- intros k0 kr0 E0. inversion E0; subst. exists dr. auto.
         * assert (k < k') by (specialize (Hle k' (or_introl eq_refl)); lia).
           destruct (IH vr zero Hs' ltac:(lia)) as [IH0 _]. rewrite IH0, Hd. split.
           -- f_equal.
-             ++ simpl sum_pairs at 1. rewrite Z.eqb_refl.
+             ++ rewrite sum_pairs_cons, Z.eqb_refl.
                 rewrite sum_pairs_none; [ring|].
-                intros kv Hin. apply in_combine_fst in Hin. specialize (Hle _ Hin).
-                destruct Hin as [<-|Hin]; lia.
-             ++ simpl map. f_equal.
-                ** simpl sum_pairs at 2. destruct (Z.eqb_spec k k'); [lia|]. ring.
-                ** apply map_ext_in. intros x Hx. specialize (Hgt _ Hx). simpl sum_pairs at 2.
+                intros kv Hin. apply in_combine_fst in Hin.
+                pose proof (sorted_head_le _ _ Hs') as Hle'.
+                destruct Hin as [E|Hin]; [lia|]. specialize (Hle' _ Hin). lia.
+             ++ cbn [map]; cbv beta. f_equal.
+                ** rewrite sum_pairs_cons. destruct (Z.eqb_spec k k'); [lia|]. ring.
+                ** apply map_ext_in. intros x Hx. specialize (Hgt _ Hx). rewrite sum_pairs_cons.
                    destruct (Z.eqb_spec k x); [lia|]. reflexivity.
           -- intros k0 kr0 E0. inversion E0; subst. eexists. split; [reflexivity|].
              intros x [<-|Hx]; [lia|]. specialize (Hgt _ Hx). lia.
@@ -346,6 +365,11 @@ Section SBGP.
     f_equal. rewrite <- seq_shift, map_map. apply IH. lia.
   Qed.
 
+  Lemma map_nth_seq_own {X} (d : X) (xs : list X) : map (fun i => nth i xs d) (seq 0 (length xs)) = xs.
+  Proof.
+    induction xs as [|x r IH]; simpl; auto. f_equal. rewrite <- seq_shift, map_map. exact IH.
+  Qed.
+
   Lemma spec_perm ks vs order : Permutation order (seq 0 (length ks)) -> length vs = length ks ->
     sbg_spec (permute 0 order ks) (permute zero order vs) = sbg_spec ks vs.
   Proof.
@@ -356,9 +380,8 @@ Section SBGP.
     { apply ssorted_unique; try apply distinct_sorted_sorted.
       intros x. rewrite !distinct_sorted_in.
       assert (Hpk : Permutation (permute 0 order ks) ks).
-      { unfold permute. rewrite <- (map_nth_seq ks 0) at 2.
-        - now apply Permutation_map.
-      }
+      { unfold permute. eapply Permutation_trans; [apply Permutation_map; exact Hp|].
+        rewrite map_nth_seq_own. apply Permutation_refl. }
       split; apply Permutation_in; [auto|now apply Permutation_sym]. }
     rewrite Hk. f_equal. apply map_ext. intros k. now apply sum_pairs_perm.
   Qed.
@@ -454,9 +477,54 @@ Section SBGP.
 End SBGP.
 
 (* ================================================================== argsort model is a valid order *)
+Lemma map_snd_combine {X Y} (a : list X) (b : list Y) :
+  length a = length b -> map snd (combine a b) = b.
+Proof. revert b. induction a; destruct b; simpl; intros; try discriminate; auto. f_equal. auto. Qed.
+
 Lemma argsort_perm ks : Permutation (argsort ks) (seq 0 (length ks)).
 Proof.
   unfold argsort. apply Permutation_sym.
-  rewrite <- (map_snd_combine_seq ks) at 1.
+  rewrite <- (map_snd_combine ks (seq 0 (length ks))) at 1 by (now rewrite seq_length).
   apply Permutation_map, KPSort.Permuted_sort.
-Abort.
+Qed.
+
+Lemma argsort_sorted ks : Sorted Z.le (permute 0 (argsort ks) ks).
+Proof.
+  unfold argsort, permute. rewrite map_map.
+  set (S := KPSort.sort (combine ks (seq 0 (length ks)))).
+  assert (Hin : forall p, In p S -> nth (snd p) ks 0 = fst p).
+  { intros p Hp. apply (Permutation_in _ (Permutation_sym (KPSort.Permuted_sort _))) in Hp.
+    apply In_nth with (d := (0, 0%nat)) in Hp. destruct Hp as [i [Hi E]].
+    rewrite combine_length, seq_length, Nat.min_id in Hi.
+    rewrite combine_nth in E by (now rewrite seq_length). subst p. simpl. now rewrite seq_nth. }
+  pose proof (KPSort.Sorted_sort (combine ks (seq 0 (length ks)))) as Hs. fold S in Hs.
+  rewrite (map_ext_in _ fst) by exact Hin. clear Hin.
+  induction Hs as [|p l Hs IH Hhd]; simpl; constructor; auto.
+  destruct Hhd; simpl; constructor. unfold is_true in H. now apply Z.leb_le.
+Qed.
+
+(* _sum_by_group: every dispatch outcome equals the specification (any ring, any non-negative keys) *)
+Section SBGAll.
+  Context {A : Type} (zero one : A) (add mul sub : A -> A -> A) (opp : A -> A)
+          (Rth : ring_theory zero one add mul sub opp eq).
+
+  Theorem sbg_all_paths_spec (use_numba numba_installed : bool) order ks vs :
+    Permutation order (seq 0 (length ks)) -> Sorted Z.le (permute 0 order ks) ->
+    (forall k, In k ks -> 0 <= k) -> length vs = length ks ->
+    sbg zero add sub use_numba numba_installed order ks vs = sbg_spec zero add ks vs.
+  Proof.
+    intros Hp Hs Hpos Hl. unfold sbg.
+    destruct (use_numba && numba_installed).
+    - destruct ks as [|k kr].
+      + destruct vs; [reflexivity|discriminate].
+      + destruct (bucket_cond (k :: kr)).
+        * eapply sbg_bucket_spec; eauto.
+        * eapply sbg_np_spec; eauto.
+    - eapply sbg_np_spec; eauto.
+  Qed.
+
+  Corollary sbg_model_order_spec (use_numba numba_installed : bool) ks vs :
+    (forall k, In k ks -> 0 <= k) -> length vs = length ks ->
+    sbg zero add sub use_numba numba_installed (argsort ks) ks vs = sbg_spec zero add ks vs.
+  Proof. intros. apply sbg_all_paths_spec; auto using argsort_perm, argsort_sorted. Qed.
+End SBGAll.
